@@ -72,6 +72,10 @@ class VerifTask(Task):
                 targets = script["target"].split(",")
                 return TaskResult.jump_to(targets[min(jumps, len(targets) - 1)])
             return TaskResult.success(outputs=out)
+        if k == "jumpafter":   # behaves like an ordinary task on its first run, jumps from its second run on
+            if prior >= 1 and jumps < n:
+                return TaskResult.jump_to(script["target"])
+            return TaskResult.success(outputs=out)
         if k == "suspend":     # counts each distinct signal name it is resumed with; needs n of them (1 by default)
             seen = list(ctx.get("seen." + self.tname, []))
             if sig and sig not in seen:
